@@ -114,7 +114,7 @@ def cmdZAdd : Cmd := fun env db args =>
     else match parsePairs env.fl (2 + nopt) rest with
     | none => (errFloat, db)
     | some pairs =>
-      let (db, _) := checkTTL db env.now k
+      let db := (checkTTL db env.now k).1
       match getZ db k with
       | some none => (wrongType, db)
       | old =>
@@ -143,7 +143,7 @@ def zremLoop : ZT.T → List Bytes → Nat → Nat × ZT.T
 def cmdZRem : Cmd := fun env db args =>
   match args with
   | _ :: k :: m :: ms =>
-    let (db, _) := checkTTL db env.now k
+    let db := (checkTTL db env.now k).1
     match getZ db k with
     | none => (.int 0, db)
     | some none => (wrongType, db)
@@ -198,7 +198,7 @@ def cmdZRange : Cmd := fun env db args =>
     else match parseI64 start, parseI64 stop with
     | some start, some stop =>
       if !inI64 start || !inI64 stop then (errInt, db) else
-      let (db, _) := checkTTL db env.now k
+      let db := (checkTTL db env.now k).1
       match getZ db k with
       | none => (arrOf [], db)
       | some none => (wrongType, db)
@@ -214,7 +214,7 @@ def zrankOf (t : ZT.T) (m : Bytes) : Option Nat := (ZT.members t).findIdx? fun p
 def cmdZRank : Cmd := fun env db args =>
   match args with
   | [_, k, m] =>
-    let (db, _) := checkTTL db env.now k
+    let db := (checkTTL db env.now k).1
     match getZ db k with
     | none => (nil, db)
     | some none => (wrongType, db)
